@@ -96,7 +96,7 @@ def render(word, layout="space", raw=None):
             break
         if layout == "space" or layout == "upper":
             parts.append(b" ")
-        elif layout == "lf":
+        elif layout in ("lf", "leadlf"):
             parts.append(b"\n")
         elif layout == "crlf":
             parts.append(b"\r\n")
@@ -112,7 +112,9 @@ def render(word, layout="space", raw=None):
         else:
             raise ValueError(layout)
     body = b"".join(parts)
-    if layout == "blank":
+    if layout == "leadlf":
+        body = b"\n" + body  # the script's very first octet is a line feed: line 1 is empty
+    elif layout == "blank":
         body = b"\n\n \t" + body + b"\n\n"
     elif layout == "comments":
         body = b"# lead \xc3\xa9\n" + body + b"\n# trail"
